@@ -32,15 +32,20 @@ Definition fcorr (s' : state) (oc : outcome) (o : fobs) : bool :=
     33 exactly once / at the due height: a pool that had left the queue is back in it or its end
        height changed; the end-blocker of block [h] left an entry of height [h], touched another
        entry, or drained a pool without closing it at [h] with nothing left to refund. *)
+(** clause 32 *)
+Definition fhyg (o : fobs) : bool :=
+  let h := fo_height o in
+  nodupb (fo_queue o)
+  && forallb (fun '(eh, id) =>
+       (h <=? eh) && match get id (fo_pools o) with Some (_, e, _) => e =? eh | None => false end)
+     (fo_queue o)
+  && forallb (fun '(id, (_, e, _)) => negb (h <? e) || ememb (e, id) (fo_queue o)) (fo_pools o).
+
 Definition fprop (prev : fobs) (op_ : op) (o : fobs) : Z :=
   let h := fo_height o in
   first_bad [
     (31, match op_ with EndBlock _ _ => negb (fo_code o =? 2) | _ => true end);
-    (32, nodupb (fo_queue o)
-         && forallb (fun '(eh, id) =>
-              (h <=? eh) && match get id (fo_pools o) with Some (_, e, _) => e =? eh | None => false end)
-            (fo_queue o)
-         && forallb (fun '(id, (_, e, _)) => negb (h <? e) || ememb (e, id) (fo_queue o)) (fo_pools o));
+    (32, fhyg o);
     (33, forallb (fun '(id, (_, e, _)) =>
               has_entry id (fo_queue prev)
               || (negb (has_entry id (fo_queue o))
